@@ -169,19 +169,6 @@ func signRejected(r *core.Run) {
 		if recv == "" {
 			return
 		}
-		// a fact about the text holds for the text that is parsed only if the variable is not assigned
-		// between the test and the conversion: a re-assigned text variable (trimmed, unquoted) is another text
-		textReassigned := false
-		ast.Inspect(fd.Body, func(x ast.Node) bool {
-			if as, ok := x.(*ast.AssignStmt); ok {
-				for _, l := range as.Lhs {
-					if id, ok := l.(*ast.Ident); ok && id.Name == textArg {
-						textReassigned = true
-					}
-				}
-			}
-			return true
-		})
 		ast.Inspect(fd.Body, func(x ast.Node) bool {
 			ret, ok := x.(*ast.ReturnStmt)
 			if !ok || len(ret.Results) == 0 || !core.IsNilIdent(info, ret.Results[len(ret.Results)-1]) {
@@ -193,7 +180,7 @@ func signRejected(r *core.Run) {
 			switch {
 			case f.False[recv+".Sign() < 0"] || f.True[recv+".Sign() >= 0"] || f.False[recv+".Sign() == -1"] || f.True[recv+".Sign() != -1"]:
 				o.Auto("the parsed number is known not to be negative")
-			case !textReassigned && (f.False[textArg+"[0] == '-'"] || f.True[textArg+"[0] != '-'"] || f.False["strings.HasPrefix("+textArg+", \"-\")"]):
+			case f.False[textArg+"[0] == '-'"] || f.True[textArg+"[0] != '-'"] || f.False["strings.HasPrefix("+textArg+", \"-\")"]: // FactsAt drops these when the text variable is re-assigned before the return
 				o.Auto("the text is known not to start with a minus sign")
 			case charsValidated(pk, info, fd, textArg, ret):
 				o.Auto("every character of the text is checked against a set without '-' before the return")
